@@ -176,13 +176,16 @@ def run(prop, args, seed, t0):
         results = pool.map(_worker, jobs, chunksize=1)
     # a crashed unit is run once more on its own (a late watchdog interrupt of z3 can hit the next API call when the
     # machine is busy); a crash that repeats is reported as a checker problem
-    again = [k for k, r in enumerate(results) if r.get("status") == "crash"]
+    # ... and so is a unit that left the supported fragment: path pruning uses short solver budgets, and when all cores
+    # are busy a path that is infeasible may survive and run into an unsupported construct
+    again = [k for k, r in enumerate(results) if r.get("status") in ("crash", "out-of-reach")]
     if again:
+        os.environ["VERIF_QFEAS_MS"] = "750"  # the second attempt prunes paths with three times the solver budget
         with ctxm.Pool(1, maxtasksperchild=1) as pool:
             for k in again:
                 first = results[k]
                 results[k] = pool.apply(_worker, (jobs[k],))
-                results[k]["crashed_once"] = (first.get("reason") or "")[-400:]
+                results[k]["first_attempt"] = {"status": first.get("status"), "reason": (first.get("reason") or "")[-400:]}
     # ---- classify ---------------------------------------------------------------------------
     violations, undecided, problems = [], [], []
     bounded_runs, early_violation_lines = [], []
